@@ -128,6 +128,13 @@ func (x *Exec) mergeStates(anc *pcNode, states []*State) *State {
 		}
 		m.heap[n] = c
 	}
+	for k := range m.ctxDone {
+		for _, s := range live {
+			if !s.ctxDone[k] {
+				delete(m.ctxDone, k)
+			}
+		}
+	}
 	// held locks: intersection
 	for k := range m.held {
 		for _, s := range live {
@@ -360,13 +367,53 @@ func sameVal(a, b Val) bool {
 
 // execBlock runs statements; returns the normal continuation state or nil.
 func (x *Exec) execBlock(s *State, stmts []ast.Stmt) *State {
-	for _, st := range stmts {
+	for i, st := range stmts {
 		if s == nil || s.dead {
 			return nil
+		}
+		// "L: stmt ... goto L" (backward goto to a label of this block): the rest of the block is the
+		// body of a loop in which goto L is "continue"; invariants are declared as "loop L invariant"
+		if ls, ok := st.(*ast.LabeledStmt); ok && isPlainLabeled(ls) && hasGoto(stmts[i:], ls.Label.Name) {
+			body := append([]ast.Stmt{ls.Stmt}, stmts[i+1:]...)
+			body = append(body, &ast.BranchStmt{Tok: token.BREAK, TokPos: ls.Pos()})
+			loop := x.fn.gotoLoops[ls]
+			if loop == nil {
+				loop = &ast.ForStmt{For: ls.Pos(), Body: &ast.BlockStmt{Lbrace: ls.Colon, List: body, Rbrace: stmts[len(stmts)-1].End()}}
+				if x.fn.gotoLoops == nil {
+					x.fn.gotoLoops = map[*ast.LabeledStmt]*ast.ForStmt{}
+				}
+				x.fn.gotoLoops[ls] = loop
+				x.fn.loops[loop] = "goto|" + ls.Label.Name
+			}
+			return x.execFor(s, loop, ls.Label.Name)
 		}
 		s = x.execStmt(s, st)
 	}
 	return s
+}
+
+func isPlainLabeled(ls *ast.LabeledStmt) bool {
+	switch ls.Stmt.(type) {
+	case *ast.ForStmt, *ast.RangeStmt, *ast.SwitchStmt, *ast.TypeSwitchStmt, *ast.SelectStmt:
+		return false
+	}
+	return true
+}
+
+func hasGoto(stmts []ast.Stmt, label string) bool {
+	found := false
+	for _, st := range stmts {
+		ast.Inspect(st, func(n ast.Node) bool {
+			if _, isLit := n.(*ast.FuncLit); isLit {
+				return false
+			}
+			if b, ok := n.(*ast.BranchStmt); ok && b.Tok == token.GOTO && b.Label != nil && b.Label.Name == label {
+				found = true
+			}
+			return !found
+		})
+	}
+	return found
 }
 
 func (x *Exec) findTarget(label string, needLoop bool) *target {
@@ -469,7 +516,12 @@ func (x *Exec) execStmt(s *State, st ast.Stmt) *State {
 		case token.FALLTHROUGH:
 			x.eng.unsupported(st.Pos(), "fallthrough")
 		case token.GOTO:
-			x.eng.unsupported(st.Pos(), "goto")
+			// backward goto to a label that heads a goto-loop (see execBlock)
+			if t := x.findTarget(label, true); t != nil && label != "" {
+				t.conts = append(t.conts, s)
+				return nil
+			}
+			x.eng.unsupported(st.Pos(), "goto %s (only backward gotos to a label of an enclosing block are supported)", label)
 		}
 		return nil
 	case *ast.SwitchStmt:
